@@ -135,7 +135,39 @@ def generate(rng, tier):
                 cases.append(gen_exact_fit(rng, tlen, mtu, d, (j + rep + d) % 3))
     for i in range(n):
         cases.append(gen_twin(rng, i) if i % 6 != 5 else gen_xapp(rng, i))
-    return cases
+    return cases + gen_edges(rng, big)
+
+
+def gen_edges(rng, big):
+    """round 3: inputs the random generator (almost) never produces - an empty list of buffers; refusals at the very end of the
+    position space, where the status depends on the length of the WHOLE message; over-long messages offered while refused"""
+    out = []
+    geoms = base.GEOMS[:7] if big else [base.GEOMS[0], base.GEOMS[2], base.GEOMS[4]]
+    for (tlen, mtu) in geoms:
+        mpl = mtu - 32
+        mm = min(tlen // 8, 16 * 1024 * 1024)
+        # no buffers at all: an empty message - accepted, refused at the limit, on a closed publication, at the end of a term
+        for (n0, off0, pre) in ((0, 0, [['l', 100000]]), (3, tlen - 32, [['l', 10 * tlen]]), (3, tlen, [['l', 10 * tlen]]),
+                                (0, 64, [['l', 64], ['n', 1]]), (0, 64, [['l', 100000], ['x']]), (2**31 - 1, tlen, [['l', 2**62]])):
+            out.append({'kind': 'twin', 'pub': 's', 'geom': [tlen, mtu, rng.choice([0, -1, base.MAXI]), n0, off0], 'pre': pre,
+                        'k': rng.randrange(0, 200), 'parts': []})
+        for off0 in (0, tlen - 32, tlen):
+            out.append({'kind': 'xapp', 'geom': [tlen, mtu, 0, rng.choice([0, 5, 2**31 - 1]), off0], 'k': rng.randrange(0, 200), 'parts': []})
+        # refused in the very last term, a few bytes before the end of the position space: MaxPositionExceeded iff position + the
+        # length of the whole message reaches term_length * 2^31
+        for off0 in (tlen - 64, tlen - 32):
+            pos = (2**31 - 1) * tlen + off0
+            left = tlen - off0
+            for total in (left - 1, left, left + 8):
+                for parts in ([1, total - 1], [0, total], [total - 1, 1]):
+                    pre = [['l', pos - rng.choice([0, 32])]] + ([['n', 1]] if rng.random() < 0.5 else [])
+                    out.append({'kind': 'twin', 'pub': 's', 'geom': [tlen, mtu, rng.choice([0, 1, base.MAXI]), 2**31 - 1, off0], 'pre': pre,
+                                'k': rng.randrange(0, 200), 'parts': parts})
+        # over-long message while refused / closed: the refusal comes first
+        for pre in ([['l', 0]], [['l', 100000], ['x']], [['n', 1]]):
+            out.append({'kind': 'twin', 'pub': 's', 'geom': [tlen, mtu, 0, 0, 0], 'pre': pre, 'k': rng.randrange(0, 200),
+                        'parts': [mm, 1] if rng.random() < 0.5 else [1, mm + 7]})
+    return out
 
 
 def impl_line(c):
